@@ -25,6 +25,12 @@ func init() {
 				Doc: "A selector refuses (404) exactly when the previous step found nothing: the refusal is decided by 'no service' / 'helper returned an error' / 'no candidate', and the continuation runs under the complementary condition. A flipped test answers 404 for every routable URL, or walks on with a nil service."},
 			{ID: "C02.k", Template: "T-SINK", Required: true, Run: ruleC02k,
 				Doc: "Indexing that request data can make fail: the first element of a candidate list is read only where the list was found non-empty, and the last group of a regular-expression match only where the match is non-nil."},
+			{ID: "C02.m", Template: "T-BOUNDS", Required: true, Run: ruleBounds,
+				Doc: "Index expressions on the request path are in bounds. Stage 1: the Go compiler's prove pass (the package is compiled with -d=ssa/check_bce; nothing is run) eliminates the bounds check of every index expression it can prove in range for all inputs. Stage 2: each remaining element index must be related to the length of the collection it indexes (constant index below an established minimum length, len-1 of a non-empty collection, a dominating comparison of the index with len of the same collection, a counter from 0 compared with len before every use, or the sort.Interface contract); bounds taken from strings.Index must have been compared with -1. An index governed by the length of a different collection panics the dispatch for the inputs where the two lengths differ.",
+			},
+			{ID: "C02.l", Template: "T-SIBLING", Required: true, Run: ruleLiteralEncoding,
+				Doc: "The RouterJSR311 matchers are compiled from template literals and run against URL.Path: both texts must have passed through the same character-rewriting functions (none today). Escaping the literals while matching the decoded path answers 404 for every template with a character the escaper changes.",
+			},
 			{ID: "C02.b", Template: "T-ORDER", Required: true, Run: ruleC02b,
 				Doc: "Stage order and status mapping. Swapped precedence (415 before 405), a wrong code or an error the dispatcher does not understand (a plain error produces no response at all) survive the eight single-route error tests."},
 			{ID: "C02.c", Template: "T-ORDER", Required: true, Run: ruleC02c,
